@@ -192,6 +192,8 @@ def run_oracles(si, sm, viol, cover):
     resurrected = defaultdict(set)       # arena -> ids resurrected in the running cycle
     upgraded = defaultdict(set)
     pac = {}
+    gen = defaultdict(int)
+    hnd = {}
     n = min(len(si["lines"]), len(sm["lines"]))
     for k in range(n):
         li, lm = si["lines"][k], sm["lines"][k]
@@ -468,10 +470,32 @@ def run_oracles(si, sm, viol, cover):
                 mutated_since[a] = True
 
         # ---- C14: fetch identity / foreign handles ------------------------------------------------
-        if o[:2] == ["m", "fetch"] and not skipped:
-            cover["C14:fetch:%d" % li.out[0]] += 1
+        if o[0] == "begin" and o[2] in ("new", "trynew") and not skipped:
+            gen[int(o[1])] += 1
         if o[:2] == ["m", "stash"] and not skipped:
             cover["C14:stash:phase%s" % (pre.get("p") if pre else "?")] += 1
+            hnd[int(o[2])] = (a, gen[a], li.out[1], li.out[2])
+        if o[0] == "cloneh" and not skipped and int(o[2]) in hnd:
+            hnd[int(o[1])] = hnd[int(o[2])]
+        if o[0] == "droph" and not skipped:
+            hnd.pop(int(o[1]), None)
+        if o[:2] == ["m", "fetch"] and not skipped:
+            ok, got, sid = li.out[0], li.out[1], li.out[2]
+            owner = hnd.get(int(o[4]))
+            mine_h = owner is not None and owner[0] == a and owner[1] == gen[a] and owner[2] == sid
+            cover["C14:fetch:%s:%s" % ("own" if mine_h else ("otherarena" if owner and (owner[0] != a or owner[1] != gen[a]) else "otherset"), ok)] += 1
+            if owner is not None:
+                if ok == 1 and not mine_h:
+                    viol("C14", None, "a DynamicRoot issued by %s was accepted by a different root set (arena %d, set object %d)" % (
+                        "another arena" if (owner[0] != a or owner[1] != gen[a]) else "another set of the same arena", a, sid), k)
+                    if owner[0] != a or owner[1] != gen[a]:
+                        viol("C20", None, "a handle of another (possibly dropped) arena was accepted by arena %d" % a, k)
+                if ok == 1 and mine_h and got != owner[3]:
+                    viol("C14", None, "fetch returned object %d but object %d was stashed" % (got, owner[3]), k)
+                if ok == 0 and mine_h:
+                    viol("C14", None, "the set refused a live handle it issued itself", k)
+                if ok == 1 and mine_h and (got in h.freed or (h.alloc.get(got) in TAGGED and got in h.dropped)):
+                    viol("C14", None, "fetch returned object %d which was already destructed/released while its handle is alive" % got, k)
 
         # ---- C20: an op on one arena leaves every other arena's state untouched ---------------
         if prev is not None:
